@@ -158,6 +158,8 @@ def run(ctx):
     long_keys(ctx)
     proba_range(ctx)
     known_family(ctx)
+    import choicelib
+    choicelib.run_key_lengths(ctx, 17 if ctx.tier == 'quick' else 22)
 
 
 def many_keys_under_threads(ctx, nkeys, nthreads=8):
